@@ -54,6 +54,11 @@ def gen(ctx):
                        scale=1, r=r, nb=nb, rule="probe:4:3:1:0", T=3, memo="False")
     for _ in range(ctx.n(400, 5000)):
         yield rand_case(rng)
+    # large grids: R*C*(2r+1)^2 beyond 2^20 gathered elements, cell-dependent rule (oracle only: the list-based
+    # Lean model is too slow at this size; the independent torus reference decides)
+    for (R, C, r, nb) in ([(350, 340, 1, "moore")] if ctx.tier == "quick" else [(350, 340, 1, "moore"), (300, 310, 1, "vn"), (120, 110, 4, "moore")]):
+        yield dict(kind="ev2", big=1, hist=[[[(3 * i + 5 * j + (i * j) // 7) % 3 for j in range(C)] for i in range(R)]],
+                   dtype="int32", scale=1, r=r, nb=nb, rule="probe:3:2:1:0", T=2, memo="False")
     for r in range(0, 9):
         yield dict(kind="mask", r=r)
     yield dict(kind="ev2", hist=[[[0, 1], [1, 0]]], dtype="int32", scale=1, r=1, nb="unknown", rule="hash:2:3:1:0", T=2, memo="False")
@@ -81,6 +86,8 @@ def gen(ctx):
 def line(c):
     if c["kind"] == "mask":
         return "vn_mask r=%d" % c["r"]
+    if c.get("big"):
+        return None
     return ev2.line(c)
 
 
@@ -101,6 +108,9 @@ def _mask_impl(r):
 def impl(c):
     if c["kind"] == "mask":
         return "ok " + fmt.mat(_mask_impl(c["r"]))
+    if c.get("big"):
+        run = ev2.run_impl(c)
+        return fmt.err(run.exc) if run.exc is not None else "ok big grids=%d" % len(run.res)
     return ev2.answer(c, ev2.run_impl(c))
 
 
@@ -142,6 +152,13 @@ def nontrivial(c, ans):
 
 def shrink(c):
     if c["kind"] != "ev2":
+        return
+    if c.get("big") and len(c["hist"][-1]) * len(c["hist"][-1][0]) > 400:
+        g = c["hist"][-1]
+        R, C = len(g), len(g[0])
+        for (nr, nc) in ((R // 2, C), (R, C // 2), (R - R // 8, C), (R, C - C // 8), (R - 1, C), (R, C - 1)):
+            if nr >= 1 and nc >= 1:
+                yield dict(c, hist=[[row[:nc] for row in gg[:nr]] for gg in c["hist"]], r=min(c["r"], nr, nc))
         return
     if len(c["hist"]) > 1:
         yield dict(c, hist=c["hist"][1:])
